@@ -1,5 +1,8 @@
 KERNELS = {'C07_wiring': dict(src='kernels/C07_wiring.cpp', flags=['-DNDEBUG']),
-           'C07_leaf_int': dict(src='kernels/C07_leaf_int.cpp', flags=['-DNDEBUG'])}
+           'C07_leaf_int': dict(src='kernels/C07_leaf_int.cpp', flags=['-DNDEBUG']),
+           'C07_leaf_flt': dict(src='kernels/C07_leaf_flt.cpp', flags=['-DNDEBUG', '-fno-builtin-exp2', '-fno-builtin-exp2f']),
+           'C07_types': dict(src='kernels/C07_types.cpp', flags=['-DNDEBUG']),
+           'C07_leaf_act': dict(src='kernels/C07_leaf_act.cpp', flags=['-DNDEBUG'])}
 def _c(e, **kw):
     c = {'MAXE': e, '_unwindset': ['in_data.0:%d' % (e**3 + 2), 'k_fill_u32.0:%d' % (e**3 + 2)]}; c.update(kw); return c
 def _w(name, unwind=8, quick=None, thorough=None, **kw):
@@ -9,12 +12,32 @@ HARNESSES = [
  _w('negative3', bounds=''), _w('invert3', bounds=''),
  _w('sub_21', bounds=''), _w('sub_12', bounds=''), _w('sub_22', bounds=''),
  _w('sub_2s', bounds=''), _w('sub_s2', bounds=''), _w('sub_ss', bounds=''),
- _w('where_21s', bounds=''), _w('where_122', bounds=''), _w('clip_sss', bounds=''),
+ _w('where_21s', bounds=''), _w('where_122', bounds=''), _w('where_mixed', bounds=''), _w('clip_sss', bounds=''),
  _w('outer_sub_21', bounds=''), _w('outer_sub_12', bounds=''),
 ]
 def _li(name, **kw):
     return dict(name='li_' + name, src='harnesses/C07_leaf.c', func='h_li_' + name, kernels=['C07_leaf_int'], unwind=4, quick=[{'LEAF_INT': 1}], thorough=[{'LEAF_INT': 1}], bounds='', **kw)
 HARNESSES += [_li('unary'), _li('addsub'), _li('mul', backend='z3'), _li('divmod', backend='z3'), _li('bitwise'), _li('shift'), _li('cmp'), _li('logical'), _li('minmax')]
+def _lf(name, quick=None, thorough=None, **kw):
+    q = [dict(c, LEAF_FLT=1) for c in (quick or [{}])]; t = [dict(c, LEAF_FLT=1) for c in (thorough or quick or [{}])]
+    return dict(name='lf_' + name, src='harnesses/C07_leaf.c', func='h_lf_' + name, kernels=['C07_leaf_flt'], unwind=4, quick=q, thorough=t, bounds='', backend='kissat', **kw)
+UF = {'LL_UF_FLOAT': 1}
+def _pair(t, u, **kw): return dict({'ONLY_T': t, 'ONLY_U': u}, **kw)
+F32, F64, I32, U32, I64 = 6, 7, 2, 3, 4
+FPAIRS = [(F32, F32), (F64, F64), (I32, F32), (F32, I32), (F32, F64), (I64, F32), (U32, F64)]
+HARNESSES += [
+ _lf('arith1'), _lf('sqrec', quick=[UF]), _lf('sqrec_a', quick=[UF]),
+ _lf('addsub', quick=[UF, _pair(F32, F32)], thorough=[_pair(t, u) for t, u in FPAIRS]),
+ _lf('mul', quick=[UF], thorough=[_pair(F32, F32), _pair(I32, F32), _pair(F64, F64, _timeout=1800)], optional=True),
+ _lf('div', quick=[UF], thorough=[_pair(F32, F32), _pair(F64, F64, _timeout=1800)], optional=True),
+ _lf('arith_as', quick=[UF]),
+ _lf('round'), _lf('pred'), _lf('cmp'), _lf('logical'), _lf('minmax'), _lf('fminmax'), _lf('fmod'), _lf('trans1'), _lf('trans2'),
+]
+def _la(name, **kw):
+    return dict(name='la_' + name, src='harnesses/C07_leaf.c', func='h_la_' + name, kernels=['C07_leaf_act'], unwind=4, quick=[{'LEAF_ACT': 1}], thorough=[{'LEAF_ACT': 1}], bounds='', backend='kissat', **kw)
+HARNESSES += [_la(n) for n in ('relu', 'clamp', 'slope', 'rational', 'exp1', 'exp2', 'exp3')]
+HARNESSES += [dict(name='ty_' + n, src='harnesses/C07_types.c', func='h_ty_' + n, kernels=['C07_types'], unwind=2, quick=[{}], thorough=[{}], bounds='')
+              for n in ('add', 'multiply', 'divide', 'maximum', 'less', 'logical_and', 'bitwise_and', 'left_shift', 'outer_dtype')]
 OUTSIDE = []
 ASSUMPTIONS = []
 CLAIM = dict(text='', note='')
